@@ -569,11 +569,15 @@ def sender_mode_cases_c16b(g, count, length):
                 tp.insert(rng.randrange(len(tp) + 1), g.bad_tpl())      # names nothing: skipped by Save
             return ",".join(tp)
 
+        forced = []
+
         def fault():
+            if forced:
+                return forced.pop()
             return str(rng.choice([1, 2, 3, 3, 4, 4])) if rng.random() < 0.12 else "-"
 
         # every shape at least once, then a random tail
-        script = [("p2p", p), ("p2p", q)] + [("self", u) for u in [owner] + members] + [("obo", rng.choice([a, b, c])), ("sys", rng.choice([a, b, c, o])),
+        script = [("p2p", p), ("p2p", q), ("selffault", owner)] + [("self", u) for u in [owner] + members] + [("obo", rng.choice([a, b, c])), ("sys", rng.choice([a, b, c, o])),
                                                               ("sysobo", rng.choice([a, b, c, o])), ("gc", 0)]
         rng.shuffle(script)
         for step in range(length):
@@ -587,6 +591,10 @@ def sender_mode_cases_c16b(g, count, length):
                            ("sys", rng.choice([a, b, c, o, 1])) if r < 0.66 else
                            ("sysobo", rng.choice([a, b, c, o])) if r < 0.72 else
                            ("up", 0) if r < 0.80 else ("delmsg", 0) if r < 0.86 else ("gc", 0))
+            if what == "selffault":
+                # the owner reads and writes: call 3 is SubsUpdate (its failure is ignored), call 4 links the attachments
+                what = "self"
+                forced.append(str(rng.choice([3, 3, 4])))
             if what in ("self", "obo", "sys", "sysobo", "p2p"):
                 f = fault()
                 on_sys = what in ("sys", "sysobo")
@@ -1321,8 +1329,12 @@ def run(ctx):
                 "four limits, non-form / no-file / empty-file bodies, four media-handler configurations, three injected faults (create / StartUpload / FinishUpload), uploads stopped between StartUpload and FinishUpload and downloads of them by every URL shape, 15 content kinds, every URL shape per fixture; "
                 "%d seeded histories of uploads, publishes with attachment lists, topic and account avatar updates, hard message deletion, topic and user deletion and GC runs "
                 "(DeleteUnused with future / past / zero bound and limits), each followed by a dump of memverif's file and link tables and the directory listing; "
+                "%d seeded sender-mode histories: a group topic (owner = root or a user) with members that write without reading (by want or by given), read and write, or only read, a p2p topic, "
+                "{pub} with attachment lists (noecho / head variants) by each of them, by a root session on behalf of members and outsiders, and to 'sys' by users without a subscription, "
+                "the k-th adapter call of the request made to fail (SubsUpdate and FileLinkAttachments at least once per history), memverif's log of the adapter calls of every publish compared with the call log of the Save model, "
+                "upload records aged past the grace period followed by the garbage collector's own call DeleteUnused(now - 1h, limit), dumps after every step; "
                 "the statements of the real MySQL adapter for GC / linking / FinishUpload executed on sqlite over enumerated tables of up to 3 uploads (old / new, 7 link sets each) x 6 (bound, limit) pairs; "
-                "non-trivial = an id was extracted / a request had an effect / a history operation ran" % (7 if quick else 11, 12 if quick else 400),
+                "non-trivial = an id was extracted / a request had an effect / a history operation ran" % (7 if quick else 11, 12 if quick else 400, 8 if quick else 250),
         "samples": [{"case": lines[i][:300], "impl": impl[i][:300]} for i in ([i for i in (1, 2, 3) if i < len(lines)] + ctx.rng.sample(range(len(lines)), min(6, len(lines))))],
         "traces_validated_against_impl": len(lines), "correspondence_mismatches": len(mism),
         "monitor_failures": len(fails), "search_pool": searched,
@@ -1333,7 +1345,8 @@ def run(ctx):
             "harness/overlay/server/db/mysql/zz_verif_c16_test.go (recording database/sql driver: statement texts and arguments of the REAL MySQL adapter's FileDeleteUnused / FileLinkAttachments / FileFinishUpload) + python sqlite3 as the SQL engine standing in for MySQL for these statements, tables with the foreign keys of adapter.go:526-555 written by hand in tools/props/c16.py; the message / topic / user deletion statements (MySQL multi-table DELETE, ON DELETE CASCADE) are NOT executed",
             "harness/overlay/server/zz_verif_c16_test.go (builds the HTTP requests, observes memverif's tables and the upload directory before/after each request, calls the real handlers; a stub media handler overrides only Headers())",
             "harness/overlay/server/db/memverif (in-memory adapter with the MySQL adapter's file/link semantics: modelled from db/mysql/adapter.go:3171-3396, not verified)",
-            "harness/runner/r_c16.ml glue: text of a placement kind -> constructor (valid key / good token / bad signature ...), upload k <-> model id",
+            "harness/runner/r_c16.ml glue: text of a placement kind -> constructor (valid key / good token / bad signature ...), upload k <-> model id; for PUBX lines: the sender's (want, given) taken from the MEMBER / P2P / TOPIC lines (the mode algebra itself is C05/C07's), position k of the failing adapter call -> fault plan of the Save model, model time = sum of the AGE lines",
+            "harness/overlay/server/zz_verif_c16b_test.go (sender-mode part of the driver: builds the {sub}/{set}/{pub} requests, reads memverif's call log and subscription rows) and memverif.AgeFilesC16b (moves updatedat of the upload records back)",
             "tools/props/c16.py law monitors (python restatement of the theorems, evaluated on the implementation's answers)",
             "outside the model: bytes on disk, http.DetectContentType, http.ServeContent, multipart parsing, MaxBytesReader (checked by the correspondence only)",
             "FinishUpload / StartUpload store failures are injected through memverif.SetFault; a media handler that is not configured is obtained by UseMediaHandler of an unknown name (recovered)",
